@@ -95,6 +95,12 @@ class C18(PureCheck):
                     ex = ex.replace("R", "q")
                 yield {"op": "query", "extra": enc.enc_text(ex), "row": vals[k % 5], "col": vals[(k // 2) % 5], "csi8": csi8,
                        "trailing": enc.enc_text(trailings[k % 4]), "faults": [2] if n == 64 else [], "cb": 1}
+        # one read failing very many times in a row before it succeeds
+        for nfail in (200, 1200, 5000):
+            for first in (1, 5):
+                k += 1
+                yield {"op": "query", "extra": enc.enc_text("ab"), "row": 17, "col": 5, "csi8": k % 2,
+                       "trailing": enc.enc_text("tail"), "faults": list(range(first, first + nfail)), "cb": 1}
         rowsets = [[a] for a in range(6)] + [[a, b] for a in range(6) for b in range(6)] + \
                   [[a, b, c] for a in (0, 2, 5) for b in (1, 5) for c in (0, 3)]
         for top0 in range(-1, 5):
